@@ -158,3 +158,6 @@ Definition screen_arity (arity : nat) : Z := Z.of_nat arity.
 Definition is_sentinel2 (a : list (list tid)) : list bvec := map (map (fun t => tid_eqb t None)) a.
 (* a[v], a 2-d, v a selection vector over its rows *)
 Definition rows_where (a : list (list tid)) (v : bvec) : list (list tid) := vselect v a.
+(* np.unique(s.treatment_names[v].flatten()): the sorted distinct treatment names of the selected experiments (only logged) *)
+Definition unique_treatment_names (s : screen_t) (v : bvec) : list name :=
+  sort_uniq name_cmp (concat (map (fun r => map fst (r_treats r)) (vselect v s))).
